@@ -298,6 +298,13 @@ class Run:
                 ctx.report('proxy-unavailable', 'caller %d could not obtain a %s proxy: %r' % (
                     i, sc.proxy_mode[i], [(k, repr(v)[:200]) for k, v in p.results]), w, case)
                 return False
+        if sc.idx % 5 == 2:
+            # every link becomes an in-process loop-back pipe: a call's whole round trip (caller -> bus -> exporter -> bus
+            # -> caller) then happens inside the caller's transport.write()
+            busnet.pump(net)
+            for c_ in [exporter] + callers:
+                c_.set_immediate()
+            ctx.count('scenarios_with_immediate_delivery')
         # ---- issue the calls concurrently, then explore delivery orders
         outcomes = []
         for call in sc.calls:
